@@ -104,7 +104,7 @@ def rule_keywords(chk, prog, tier):
                 if not (isinstance(b, Ptr) and b.obj.kind == 'str'):
                     raise Unsupported('strcmp second argument')
                 # locate which keyword entry this string belongs to
-                idx = it2.user['idx_of'].get(id(b.obj))
+                idx = it2.user['idx_of'].get(b.obj.id)
                 if idx is None:
                     raise Unsupported('strcmp with a non-table string')
                 k2 = 2 * idx + 1
@@ -112,7 +112,7 @@ def rule_keywords(chk, prog, tier):
             def runner(it2, pos2=pos2):
                 oo, _ = static_local(it2, prog, fn, 'keywords')
                 it2.statics[node['id']] = oo
-                it2.user['idx_of'] = {id(oo.f[(i, 'name')].obj): i for i in range(n)}
+                it2.user['idx_of'] = {oo.f[(i, 'name')].obj.id: i for i in range(n)}
                 tok = Obj('tok', 'heap')
                 tok.f[('kind',)] = tident
                 tok.f[('lit',)] = Ptr(Obj('lit', 'heap'), (0,))
